@@ -54,8 +54,11 @@ def main():
         if run_tests:
             junit = scratch + "_junit.xml"
             t0 = time.time()
+            # explicit paths + PYTHONPATH: collecting from the root of a worktree lets the editable install's
+            # `tests` package shadow the worktree's one; these two directories hold all 148 baseline tests
             sh(["/venv/bin/python", "-m", "pytest", "-ra", "-q", "-p", "no:cacheprovider", "--timeout=900",
-                "--continue-on-collection-errors", "--junitxml=" + junit], env=dict(os.environ, HOME=home, MPLBACKEND="Agg"), cwd=scratch, timeout=3000)
+                "--continue-on-collection-errors", "--junitxml=" + junit, "tests/unit", "examples"],
+               env=dict(os.environ, HOME=home, MPLBACKEND="Agg", PYTHONPATH=scratch), cwd=scratch, timeout=6000)
             base = set(json.load(open("/root/.vp/BASELINE.json"))["stable_pass"])
             passed = set()
             for tc in ET.parse(junit).getroot().iter("testcase"):
